@@ -99,7 +99,10 @@ def zero_evaluation_failure(searches, x_scale=1.0):
     # (also: a search direction that is exactly zero - the Cauchy and subspace points coincide with x
     # because every variable is blocked; one ulp on a bound decides that)
     tiny = 64.0 * EPS * max(1.0, x_scale)  # a direction at the rounding level of the iterate
-    return any(t[2] is None and (t[0] == t[1] or t[3] <= tiny) for t in searches)
+    # only the provable cases: a component moving off the box from the bound it sits on (maximum
+    # feasible step exactly zero) or a direction at rounding level; a search that refuses a
+    # direction for another reason (not a descent direction) is NOT excused
+    return any(t[2] is None and ((t[0] == t[1] and len(t) > 5 and t[5]) or t[3] <= tiny) for t in searches)
 
 
 def compare_restart(problem, cfg, blob, x_ref, maxiter, pseed, stats, n_pert=5, ref_act=None, rel_step_tol=None, ref_searches_before=None):
@@ -127,11 +130,20 @@ def compare_restart(problem, cfg, blob, x_ref, maxiter, pseed, stats, n_pert=5, 
         return "fail", {"shape": list(x.shape)}, act
     d = float(np.max(np.abs(x - x_ref))) if x.size else 0.0
     floor = 64.0 * EPS * max(1.0, float(np.max(np.abs(x_ref))))
+    mask = np.ones(x.shape, dtype=bool)
+    x_ref_full = x_ref
     if not np.isfinite(d):
-        if np.array_equal(np.isnan(x), np.isnan(x_ref)):
-            stats["nj.nonfinite_iterates"] += 1
+        # non-finite components must sit at the same places with the same values; the finite ones are judged
+        fin, fin_ref = np.isfinite(x), np.isfinite(x_ref)
+        if not np.array_equal(fin, fin_ref) or not np.array_equal(x[~fin], x_ref[~fin_ref], equal_nan=True):
+            return "fail", {"distance": d, "nonfinite_mismatch": True}, act
+        stats["nj.nonfinite_components"] += 1
+        if not fin.any():
             return "vacuous", {}, act
-        return "fail", {"distance": d}, act
+        mask = fin
+        x, x_ref = x[mask], x_ref[mask]
+        d = float(np.max(np.abs(x - x_ref)))
+        floor = 64.0 * EPS * max(1.0, float(np.max(np.abs(x_ref))))
     if d <= floor:
         return "ok", {"distance": d}, act
     # calibrate: what does rounding-size noise on the checkpoint do at this state?
@@ -143,13 +155,16 @@ def compare_restart(problem, cfg, blob, x_ref, maxiter, pseed, stats, n_pert=5, 
         stats["events"] += a2.n_events
         if a2.result is None:
             stats["nj.perturbed_restart_raised"] += 1
-            return "vacuous", {}, act
-        xs.append(np.asarray(a2.result.x, dtype=float))
+            continue  # this sample is lost, the comparison is not
+        xp = np.asarray(a2.result.x, dtype=float)
+        if xp.shape != mask.shape or not np.all(np.isfinite(xp[mask])):
+            continue
+        xs.append(xp[mask])
     spread = 0.0
     for i in range(len(xs)):
         for j in range(i + 1, len(xs)):
             spread = max(spread, float(np.max(np.abs(xs[i] - xs[j]))))
-    step = float(np.max(np.abs(x_ref - pickle.loads(blob).x))) if x.size else 0.0
+    step = float(np.max(np.abs((x_ref_full - pickle.loads(blob).x)[mask]))) if x.size else 0.0
     if rel_step_tol is None:
         # one-ulp differences of the trial points reach the iterate through the line-search
         # interpolation: amplified by about 1/h ~ 1e8 with finite-difference gradients, by the
